@@ -14,7 +14,7 @@ CHECKS = {
 }
 SHORT = {"C01": "OWN-2 (forked append)", "C05": "REC (recursion table)", "C07": "TCH (type channels), LIT (literal completeness), LEN (make/fill agreement)",
  "C09": "OWN-1 (no in-place write to borrowed state), OWN-2, SHR-1/SHR-4 (no write to shared state)", "C11": "LIT", "C15": "LEN", "C18": "TCH",
- "C20": "PANIC-type, REC, VAL-1 (validation not behind a random draw)"}
+ "C20": "PANIC-type, REC, VAL-1 (validation not behind a random draw), ND-1 (no goroutines/process control on the request path)"}
 EXTRA = {
  "C01": " Plus OWN-2 (no forked append: a loop never appends repeatedly to one base defined outside it), decided on SSA without a reference.",
  "C05": " Plus REC (every recursion cycle on the request path is tabled with its termination argument).",
@@ -23,7 +23,7 @@ EXTRA = {
  "C11": " Plus LIT (literal completeness of the heuristic's parameter struct in the listener).",
  "C15": " Plus LEN (make/fill agreement, the SortByWeights class of defects).",
  "C18": " Plus TCH (type channels between OnCriterionAdded and Merge of every listener).",
- "C20": " Plus PANIC-type (every request-path panic carries an error or string), REC (recursion cycles tabled), VAL-1 (the call that validates a bias's props is not control dependent on a random draw: violated in processBiases, recorded as a known finding).",
+ "C20": " Plus PANIC-type (every request-path panic carries an error or string), REC (recursion cycles tabled), VAL-1 (the call that validates a bias's props is not control dependent on a random draw: violated in processBiases, recorded as a known finding), ND-1 (a panic in a spawned goroutine bypasses the handler's recover: no goroutines, channels or process control on the request path).",
 }
 for _p in ["C01","C03","C04","C05","C07","C08","C09","C11","C12","C13","C14","C15","C16","C17","C18","C19","C20"]:
     CHECKS[_p] = (E5[0] + ("; plus reference-free SSA rules " + SHORT[_p] if _p in SHORT else "") + ("" if _p == "C09" else ("; plus SHR-1/SHR-4 (no request-path write to memory that outlives the request)" if _p == "C20" else "; plus SHR-H (the handler layer keeps nothing from an earlier request)")),
